@@ -174,7 +174,10 @@ func (fr *frame) symDigits(t *Term, base uint64, minDigits int) []value {
 	}
 	n := 1
 	pow := base
-	for n < maxDigits {
+	if minDigits >= maxDigits {
+		n = maxDigits // zero-padded to the full width of the type (%03o of a byte): no case split
+	}
+	for n < maxDigits && minDigits < maxDigits {
 		if fr.decide(fromTermBool(ts.Cmp(OpUlt, t, ts.Const(w, pow)))) {
 			break
 		}
